@@ -25,3 +25,4 @@ open BsVerif.Lines
 #print axioms C04_line_to_addrs_line_wins
 #print axioms C04_line_to_addrs_fallback
 #print axioms C04_line_to_addrs_counterexample
+#print axioms C04_line_to_addrs_counterexample_pe_lookahead
